@@ -55,6 +55,13 @@ def c20(tier, seed):
     if ck.evaluations != 9 * 256 and not ck.violations:
         ck.harness_errors.append("expected 2304 pairs, evaluated %d" % ck.evaluations)
     shutil.rmtree(d, ignore_errors=True)
+    # the lookups at their call sites: every byte as the reason code of a Server DISCONNECT, of the CONNACK and of a Server AUTH
+    _sim_part(ck, "C20", tier, seed,
+              "[sim] in situ: 3 x 256 scenarios on the real client (Server DISCONNECT / CONNACK / Server AUTH with every byte as reason "
+              "code); oracle: a code a Server may send is acted upon and reported to the logger with exactly that value, a code MQTT 5 "
+              "does not list for the packet is not acted upon as valid, a refusing CONNACK never establishes the connection")
+    ck.require("sim.c20_insitu_cases", 768)
+    ck.require("sim.c20_insitu_sendable", 40)
     return ck.finish()
 
 
